@@ -310,7 +310,9 @@ func checkC05(c *Ctx, p *Prog, r *Result) {
 			m := f.matcherFor(fn)
 			for i, sr := range f.successReturns(fn, 2) {
 				pv := m.Prov(returnValue(sr.Ret, 1))
-				r.table(p, "C05.client-in", "value of success return #"+itoa(i)+" of "+p.FuncName(fn), p.instrPos(sr.Ret), pv.Has("call:fdo/kex.Session.Decrypt"), "provenance: "+joinMax(pv.List(), 8))
+				plainOK := sr.State.Has("sess-nil") || sr.State.Has("resp-is-error") || (sr.State.Has("client-in") && !sr.State.Has("cli-decrypt-ok"))
+				r.table(p, "C05.client-in", "value of success return #"+itoa(i)+" of "+p.FuncName(fn), p.instrPos(sr.Ret), pv.Has("call:fdo/kex.Session.Decrypt") || plainOK,
+					fmt.Sprintf("body derives from Decrypt=%v, or returned on a path where no session was given / the message is an error=%v; provenance: %s", pv.Has("call:fdo/kex.Session.Decrypt"), plainOK, joinMax(pv.List(), 8)))
 			}
 		}
 	}
